@@ -166,6 +166,7 @@ INJECT = [
     ("native/inner_locustdb.rs", "src/scheduler/inner_locustdb.rs", "verif_nat_inner_locustdb", ("native",)),
     ("native/server.rs", "src/server/mod.rs", "verif_nat_server", ("native",)),
     ("native/input_column.rs", "src/ingest/input_column.rs", "verif_nat_input_column", ("native",)),
+    ("native/partition_segment.rs", "src/disk_store/partition_segment.rs", "verif_nat_partition_segment", ("native",)),
 ]
 
 
